@@ -682,3 +682,18 @@ for _p in ["C01", "C04", "C10", "C16"]:
 # the async cancellation source of C08 goes through ExecutionResult / executeAsync: the future stress (executor reuse after a cancelled async
 # execution, Cancel after completion, Cancel then Timeout) is also a C08 runner (round 9: executeAsync writing the child context back into the executor)
 PROPS["C08"]["runners"] = PROPS["C08"]["runners"] + [stress_runner("future", "an execution cancelled through its ExecutionResult did not report ErrExecutionCanceled, or an execution nobody cancelled (on an executor an earlier async execution was cancelled on) reported a cancellation")]
+
+# TRACE tie (slice `trace`): real concurrent runs, instrumented only where user code can look, are replayed through the interleaving models with
+# the exact acceptor `Failsafe.Conc.Trace.accepts` (accepts_iff: a recorded event list is rejected iff NO interleaving of the model shows it);
+# the recorded list is the replay. Props/C07 and Props/C15 prove what acceptance implies (final_sample_exclusive, early_*_impossible, seen_*_imp).
+_TRACE_DIFF = {"slice": "trace", "recorded": True, "n_quick": 160, "n_thorough": 1600, "seeds_thorough": 3, "n_search": 800, "par": 8}
+for _p in ["C07", "C15"]:
+    PROPS[_p]["diff"] = PROPS[_p]["diff"] + [_TRACE_DIFF]
+    PROPS[_p]["rule"] += ("; trace slice: per case 4 real Timeout applications (alone / under a fallback / async; function durations far below, within "
+        "+-200 us and within +-90 us of the 2 ms limit, far above, or blocking until cancelled) and 4 real asynchronous executions (1-4 concurrent readers "
+        "polling IsDone / Done and calling Get, a Cancel at a drawn instant in a third of them); every event user code sees is stamped with one atomic "
+        "counter (monotone flags: true readings stamped after, false readings before the read); the event list must be shown by some interleaving of the Lean model")
+    PROPS[_p]["manifest"]["text"] += " TRACE: recorded event lists of real concurrent runs are decided by an acceptor proved exact for the interleaving model (a list is rejected iff no interleaving of the model shows it); what acceptance implies is proved in the property file."
+    PROPS[_p]["manifest"]["technique"] += " + trace acceptance against the interleaving model (acceptor proved sound and complete)"
+PROPS["C07"]["required_theorems"] += ["Failsafe.Props.C07." + t for t in ["accepted_states_reachable", "final_sample_exclusive", "early_listener_impossible", "early_exceeded_impossible", "early_cancellation_impossible"]]
+PROPS["C15"]["required_theorems"] += ["Failsafe.Props.C15." + t for t in ["accepted_states_reachable", "seen_isDone_imp", "seen_closed_imp", "got_imp"]]
